@@ -72,7 +72,7 @@ fn main() {
         std::process::exit(2);
     }
     let mut rep = Report::new(&id, &tier);
-    watchdog_start(&id, &tier, if tier == "quick" { 60 } else { 300 });
+    watchdog_start(&id, &tier, std::env::var("QZV_HANG_S").ok().and_then(|x| x.parse().ok()).unwrap_or(if tier == "quick" { 120 } else { 600 }));
     let r = std::panic::catch_unwind(std::panic::AssertUnwindSafe(|| checks::run(&id, &mut rep)));
     match r {
         Ok(true) => {}
